@@ -571,7 +571,69 @@ func mangle(c context, templateName string) string {
 		// The rel values of a link element select the sanitizer of its href.
 		s += "_rel" + c.linkRel
 	}
-	return s
+	return s + attrValuePrefixClass(c)
+}
+
+// attrValuePrefixClass returns a suffix for the mangled name of a template that is called
+// inside an attribute value. The sanitizers of the actions in the called template depend
+// on the static text of the value that precedes the call, so call sites share a derived
+// template only if that text puts them in the same class. The classes are coarse enough
+// to be finitely many: a recursive template that extends the value, as in
+//
+//	{{define "params"}}k={{.}}{{if .}}&{{template "params" . | pred}}{{end}}{{end}}
+//	<a href="/foo?{{template "params" 4}}">
+//
+// calls itself in the class it was called in.
+func attrValuePrefixClass(c context) string {
+	if c.state != stateAttr || c.attr.value == "" && !c.attr.ambiguousValue {
+		return ""
+	}
+	elem, attr := c.element.name, c.attr.name
+	if len(c.element.names) > 0 {
+		elem = c.element.names[0]
+	}
+	if len(c.attr.names) > 0 {
+		attr = c.attr.names[0]
+	}
+	sc, err := sanitizationContextForAttrVal(elem, attr, c.linkRel)
+	switch {
+	case err != nil:
+		return ""
+	case c.attr.ambiguousValue:
+		return "_valAmbiguous"
+	case sc.isEnum():
+		return "_valPartial"
+	case sc == sanitizationContextStyle:
+		if validateDoesNotEndsWithCharRefPrefix(c.attr.value) != nil {
+			return "_valCharRefPrefix"
+		}
+		return "_valStatic"
+	case !sc.isURLorTrustedResourceURL():
+		return ""
+	}
+	if sc != sanitizationContextTrustedResourceURL && strings.ContainsAny(html.UnescapeString(c.attr.value), "#?") {
+		// Everything after the start of the query or fragment is in this class, also a
+		// value that currently ends in an incomplete character reference ("...&").
+		return "_valQuery"
+	}
+	validator, ok := urlPrefixValidators[sc]
+	if !ok {
+		return "_valUnknown"
+	}
+	if err := validator(c.attr.value); err != nil {
+		// Actions after this prefix are rejected, unless the called template completes it.
+		decoded := html.UnescapeString(c.attr.value)
+		switch {
+		case containsWhitespaceOrControlPattern.MatchString(c.attr.value) || containsWhitespaceOrControlPattern.MatchString(decoded):
+			return "_valSpace"
+		case startsWithFullySpecifiedSchemePattern.MatchString(decoded):
+			return "_valScheme"
+		case !strings.ContainsAny(decoded, "/?#"):
+			return "_valSchemePart"
+		}
+		return "_valIncomplete"
+	}
+	return "_valPath"
 }
 
 // escapeTree escapes the named template starting in the given context as
